@@ -27,7 +27,7 @@ PLAN = {
     "thorough": {"shards": 16, "shard_timeout": 3600, "case_timeout": 300, "maxlen": 8, "alg": 400000, "max_case_timeouts": 10},
 }
 THRESHOLDS = {
-    "quick": {"tracker_histories": 4000, "registrations_checked": 20000, "algorithm_runs": 150, "alg:gp": 20, "alg:rs": 20, "alg:hc": 20, "alg:opo": 20, "histories_with_ties": 1000, "minimising": 1500, "shared_evaluator_cases": 100, "shared_evaluator:parallel": 30, "presented_with_fitness": 100, "shared_evaluator_runs": 30, "searches_on_a_warm_tracker": 20, "second_search_calls": 20, "tracker_histories_tiny_values": 1000, "tracker_histories_huge_values": 1000},
+    "quick": {"tracker_histories": 4000, "registrations_checked": 20000, "algorithm_runs": 150, "alg:gp": 20, "alg:rs": 20, "alg:hc": 20, "alg:opo": 20, "histories_with_ties": 1000, "minimising": 1500, "shared_evaluator_cases": 100, "shared_evaluator:parallel": 30, "presented_with_fitness": 100, "shared_evaluator_runs": 30, "searches_on_a_warm_tracker": 20, "second_search_calls": 20, "tracker_histories_tiny_values": 1000, "searches_with_a_user_written_tracker": 10, "tracker_histories_huge_values": 1000},
     "thorough": {"tracker_histories": 12000, "registrations_checked": 80000, "algorithm_runs": 3800},
 }
 
@@ -63,7 +63,7 @@ def gen_cases(tier, seed):
         if rng.random() < 0.2:  # creeping improvements far behind the decimal point, or unit steps at a huge magnitude
             f = rng.choice([1e-10, 1e-10, 1.0])
             seq = [x * f + (1e10 if f == 1.0 else 0.0) for x in seq]
-        yield {"kind": "alg", "alg": ["gp", "rs", "hc", "opo"][i % 4], "repr": rng.choice(["tree", "ge", "sge"]), "minimize": rng.random() < 0.5, "seq": seq, "budget": rng.randint(2, 40), "pop": rng.choice([2, 3, 5, 8]), "multi": rng.random() < 0.2, "warm": rng.choice([None, None, "pre-evaluated", "second-search"]), "seed": rng.randrange(10**6)}
+        yield {"kind": "alg", "alg": ["gp", "rs", "hc", "opo"][i % 4], "repr": rng.choice(["tree", "ge", "sge"]), "minimize": rng.random() < 0.5, "seq": seq, "budget": rng.randint(2, 40), "pop": rng.choice([2, 3, 5, 8]), "multi": rng.random() < 0.2, "warm": rng.choice([None, None, "pre-evaluated", "second-search"]), "own_tracker": rng.random() < 0.15, "seed": rng.randrange(10**6)}
 
 
 def good(v, minimize):
@@ -325,6 +325,24 @@ def run_alg(case, rec):
     else:
         prob = SingleObjectiveProblem(f, minimize=minimize)
         tr = SingleObjectiveProgressTracker(prob, SequentialEvaluator(), recorders=[r])
+    stock = tr
+    if case.get("own_tracker"):
+        # a tracker written against the public base class (ProgressTracker), here a thin wrapper around a stock one
+        from geneticengine.evaluation.tracker import ProgressTracker
+
+        class OwnTracker(ProgressTracker):
+            def __init__(self, inner):
+                super().__init__(inner.problem, inner.evaluator, recorders=[])
+                self.inner = inner
+
+            def evaluate(self, individuals):
+                return self.inner.evaluate(individuals)
+
+            def get_best_individual(self):
+                return self.inner.get_best_individual()
+
+        tr = OwnTracker(stock)
+        rec.count("searches_with_a_user_written_tracker")
     b = EvaluationBudget(case["budget"])
     alg = {
         "gp": lambda: GeneticProgramming(prob, b, rep, src, tracker=tr, population_size=case["pop"]),
@@ -367,7 +385,7 @@ def run_alg(case, rec):
     rv = value_of(res)
     if rv is None or best is None:
         return
-    reported = tr.get_best_individuals() if multi else [tr.get_best_individual()]
+    reported = stock.get_best_individuals() if multi else [stock.get_best_individual()]
     if all(res is not x for x in reported):
         rec.violation("search:returned-individual-is-not-the-tracker-best", dict(wit, returned=rv))
     if good(rv, minimize) < best:
